@@ -349,6 +349,22 @@ func (eapAkaPrime *EapAkaPrime) Unmarshal(rawData []byte) error {
 				}
 				return errors.Wrapf(err, "EAP-AKA' Unmarshal(): read %s attribute/value failed", attr.attrType)
 			}
+		default:
+			// AT_CHECKCODE and every attribute without a dedicated reader: type, length (in 4-octet words),
+			// two octets kept as reserved, then the rest of the attribute as its value
+			if attr.length == 0 {
+				return errors.Errorf("EAP-AKA' Unmarshal(): %s attribute length must not be 0", attr.attrType)
+			}
+			reserved := make([]byte, EapAkaAttrReservedLen)
+			if _, err = io.ReadFull(bufReader, reserved); err != nil {
+				return errors.Wrapf(err, "EAP-AKA' Unmarshal(): read %s attribute/reserved failed", attr.attrType)
+			}
+			attr.reserved = binary.BigEndian.Uint16(reserved)
+			valLen := 4*int(attr.length) - EapAkaAttrTypeLen - EapAkaAttrLengthLen - EapAkaAttrReservedLen
+			attr.value = make([]byte, valLen)
+			if _, err = io.ReadFull(bufReader, attr.value); err != nil {
+				return errors.Wrapf(err, "EAP-AKA' Unmarshal(): read %s attribute/value failed", attr.attrType)
+			}
 		}
 
 		// Set attribute
